@@ -8,13 +8,15 @@ use crate::driver::{AnyFlow, ReqCfg};
 use crate::engine::{guarded, Report, Tier, Violation};
 use crate::refmodel::reqvalid::{self, ReqFacts};
 
-pub const RULE: &str = "full product: version {0.9,1.0,1.1,2,3} x 9 methods x Host {none, one, two orig, orig+added, non-textual} x Content-Length {none, 3, 0, two orig, orig+added, -1, abc, non-utf8} x Transfer-Encoding {none, chunked, Chunked, CHUNKED} x despite-method {no,yes} x front end {Flow, Call::without_body, Call::with_body}; per cell: write(4 KiB sentinel buffer) twice, write(empty buffer), readiness, proceed. distinct = distinct (validity class, front end, outcome) triples";
+pub const RULE: &str = "full product: version {0.9,1.0,1.1,2,3} x 9 methods x Host {none, one, two orig, orig+added, non-textual} x Content-Length {none, 3, 0, two orig, orig+added, -1, abc, non-utf8} x Transfer-Encoding {none, chunked, Chunked, CHUNKED} x despite-method {no,yes} x front end {Flow, Call::without_body, Call::with_body}; plus non-standard method tokens {get, Post, head, PURGE, M-SEARCH, GETX} x versions x Content-Length {none,3} x Transfer-Encoding {none, chunked} x despite x front ends (all refused); plus flows obtained by following a 302 (original POST with Content-Length / GET, inherited Content-Length and Cookie suppressed) x caller-added Host {none, one, two} x caller-added Content-Length {none, 3, 0, two, -1, abc, non-utf8} x Transfer-Encoding x despite; per cell: write(4 KiB sentinel buffer) twice, write(empty buffer), readiness, proceed. distinct = distinct (validity class, front end, outcome) triples";
 
 const METHODS: [&str; 9] = ["GET", "HEAD", "POST", "PUT", "DELETE", "CONNECT", "OPTIONS", "TRACE", "PATCH"];
 const VERSIONS: [&str; 5] = ["0.9", "1.0", "1.1", "2", "3"];
 const HOSTS: [&str; 5] = ["none", "one", "two-orig", "orig+added", "non-textual"];
 const CLS: [&str; 8] = ["none", "3", "0", "two-orig", "orig+added", "-1", "abc", "non-utf8"];
 const FRONTS: [&str; 3] = ["flow", "call-without-body", "call-with-body"];
+/// method tokens that are not one of the standard methods (tokens are case-sensitive): refused
+const ODD_METHODS: [&str; 6] = ["get", "Post", "head", "PURGE", "M-SEARCH", "GETX"];
 
 #[derive(Clone, Debug)]
 struct Cell {
@@ -47,10 +49,74 @@ fn cells() -> Vec<Cell> {
             }
         }
     }
+    for version in VERSIONS {
+        for method in ODD_METHODS {
+            for cl in ["none", "3"] {
+                for te in ["", "chunked"] {
+                    for despite in [false, true] {
+                        for front in FRONTS {
+                            if front != "flow" && despite {
+                                continue;
+                            }
+                            v.push(Cell { version, method, host: "none", cl, te, despite, front });
+                        }
+                    }
+                }
+            }
+        }
+    }
+    // flows obtained by following a redirect: the inherited Content-Length / Cookie are suppressed,
+    // what the caller adds to the new flow is judged like on any other flow
+    for version in ["1.0", "1.1"] {
+        for method in ["POST", "GET"] {
+            for host in ["none", "added", "two-added"] {
+                for cl in ["none", "3", "0", "orig+added", "two-added", "-1", "abc", "non-utf8"] {
+                    for te in ["", "chunked"] {
+                        for despite in [false, true] {
+                            v.push(Cell { version, method, host, cl, te, despite, front: "flow-redirected" });
+                        }
+                    }
+                }
+            }
+        }
+    }
     v
 }
 
+/// The original request of a "flow-redirected" cell, and the model of the request that results.
+fn redirected_cfgs(c: &Cell) -> (ReqCfg, ReqCfg) {
+    // original: body methods declare a length (suppressed on the new flow), everything carries a cookie
+    let mut orig = ReqCfg::new(c.method, c.version, "http://a.test/p").orig("cookie", "k=ORIG").orig("x-keep", "1");
+    // the new request: 302 turns everything but GET/HEAD into GET
+    let mut m = ReqCfg::new("GET", c.version, "http://a.test/next").orig("x-keep", "1");
+    if reqvalid::needs_body(c.method) {
+        orig = orig.orig("x-from-post", "1").orig("content-length", "3");
+        m = m.orig("x-from-post", "1");
+    }
+    match c.host {
+        "added" => m = m.added("host", "h.test"),
+        "two-added" => m = m.added("host", "h.test").added("host", "h2.test"),
+        _ => {}
+    }
+    match c.cl {
+        "3" | "orig+added" => m = m.added("content-length", "3"),
+        "0" => m = m.added("content-length", "0"),
+        "two-added" => m = m.added("content-length", "3").added("content-length", "3"),
+        "-1" => m = m.added("content-length", "-1"),
+        "abc" => m = m.added("content-length", "abc"),
+        "non-utf8" => m.added.push(("content-length".into(), vec![b'3', 0xe9])),
+        _ => {}
+    }
+    if !c.te.is_empty() {
+        m = m.added("transfer-encoding", c.te);
+    }
+    (orig, m.despite(c.despite))
+}
+
 fn cfg_of(c: &Cell) -> ReqCfg {
+    if c.front == "flow-redirected" {
+        return redirected_cfgs(c).1;
+    }
     let mut r = ReqCfg::new(c.method, c.version, "http://a.test/p");
     let call_api = c.front != "flow";
     match c.host {
@@ -97,7 +163,7 @@ fn expected(cfg: &ReqCfg, front: &str) -> Result<(), &'static str> {
         te_chunked: te,
         despite_method: cfg.despite_method,
         call_with_body: match front {
-            "flow" => None,
+            "flow" | "flow-redirected" => None,
             "call-with-body" => Some(true),
             _ => Some(false),
         },
@@ -122,8 +188,25 @@ fn observe(cfg: &ReqCfg, front: &str) -> Result<Obs, String> {
     let mut buf = vec![SENTINEL; 4096];
     let mut buf2 = vec![SENTINEL; 4096];
     match front {
-        "flow" => {
-            let f = cfg.build_prepare()?;
+        "flow" | "flow-redirected" => {
+            let f = if front == "flow" {
+                cfg.build_prepare()?
+            } else {
+                // the model request `cfg` describes the flow AFTER a 302 from http://a.test/p to /next;
+                // the original is a POST with Content-Length: 3 when the cell says so (see redirected_cfgs)
+                let mut orig = ReqCfg::new(cfg_orig_method(cfg), &cfg.version, "http://a.test/p").orig("cookie", "k=ORIG").orig("x-keep", "1");
+                if reqvalid::needs_body(&orig.method) {
+                    orig = orig.orig("x-from-post", "1").orig("content-length", "3");
+                }
+                let pf = orig.build_prepare()?;
+                let body: &[u8] = if reqvalid::needs_body(&orig.method) { b"abc" } else { b"" };
+                let mut nf = match crate::chain::follow(&pf, body, 302, &crate::chain::Loc::one("/next"), false)? {
+                    crate::chain::Followed::New(f) => f,
+                    _ => return Err("redirect not followed".into()),
+                };
+                crate::driver::apply_prepare(&mut nf, cfg)?;
+                nf
+            };
             let mut f = f.proceed();
             let w1 = f.write(&mut buf).map_err(|e| format!("{:?}", e));
             let rejected = w1.is_err();
@@ -193,6 +276,15 @@ fn observe(cfg: &ReqCfg, front: &str) -> Result<Obs, String> {
                 advanced: rejected && c.into_receive().is_ok() && false,
             })
         }
+    }
+}
+
+/// The method of the original request behind a redirected model request (recorded in its label header).
+fn cfg_orig_method(cfg: &ReqCfg) -> &str {
+    if cfg.orig.iter().any(|(k, _)| k == "x-from-post") {
+        "POST"
+    } else {
+        "GET"
     }
 }
 
